@@ -902,6 +902,60 @@ fn k_scn(wakes: usize, also_waitable: bool, allow_cancel: bool) -> &'static str 
     how
 }
 
+/// Task B wakes sleeping task A from inside B's own callback (a channel send from one
+/// component task to another).
+fn k3_scn(b_yields: usize, allow_cancel: bool) -> &'static str {
+    let flag: Rc<RefCell<Flag>> = Rc::new(RefCell::new(Flag::default()));
+    let (fa, fb) = (flag.clone(), flag.clone());
+    let done = Rc::new(RefCell::new(false));
+    let d2 = done.clone();
+    with(|h| h.wakers_outlive_tasks = true);
+    driver::start_task(async move {
+        poll_fn(|cx| {
+            let mut f = fa.borrow_mut();
+            f.polls += 1;
+            if f.set {
+                f.waker = None;
+                Poll::Ready(())
+            } else {
+                f.waker = Some(cx.waker().clone());
+                Poll::Pending
+            }
+        })
+        .await;
+        *d2.borrow_mut() = true;
+    });
+    driver::start_task(async move {
+        for _ in 0..b_yields {
+            wit_bindgen::yield_async().await;
+        }
+        let w = {
+            let mut f = fb.borrow_mut();
+            f.set = true;
+            f.waker.take()
+        };
+        if let Some(w) = w {
+            w.wake();
+        }
+    });
+    let how = driver::run(&Opts { allow_cancel, ..Opts::default() }, &mut vec![]);
+    obs(format!("polls={} done={}", flag.borrow().polls, done.borrow()));
+    if how == "done" {
+        let cancelled = with(|h| h.tasks[0].cancel_sent);
+        if !cancelled {
+            check("C23", "wakeup:task-exited-unfinished", *done.borrow(), || "sleeping task exited although its future never completed".to_string());
+        }
+        with(|h| {
+            for s in &h.streams {
+                if s.elem == host::Elem::Unit {
+                    check("C23", "wakeup:more-items-than-wakes", s.g2g.len() <= 1, || format!("{} wakeup items went through the internal stream for one wake", s.g2g.len()));
+                }
+            }
+        });
+    }
+    how
+}
+
 // ------------------------------------------------------------------------------- foreign executor / moves (C18)
 
 #[derive(Clone, Copy, PartialEq, Eq, Debug)]
@@ -1145,6 +1199,32 @@ pub fn catalogue() -> Vec<Scenario> {
         scn!("K1-two-wakes", ["C23"], || k_scn(2, false, false)),
         scn!("K1-one-wake-cancel", ["C23", "C22"], || k_scn(1, false, true)),
         scn!("K2-wake-with-waitable", ["C23", "C22", "C18"], || k_scn(1, true, false)),
+        scn!("K3-wake-from-other-task", ["C23", "C22"], || k3_scn(1, false)),
+        scn!("K3-wake-from-other-task-cancel", ["C23"], || k3_scn(2, true)),
+        scn!("W5-blob-write_one", ["C19"], || {
+            let rep: Rc<RefCell<Option<Option<Item>>>> = Rc::new(RefCell::new(None));
+            let r2 = rep.clone();
+            let si = with(|h| h.streams.len());
+            driver::start_task(async move {
+                let (mut tx, rx) = unsafe { stream_new(&BLOBS) };
+                with(|h| h.give_stream_end_to_host(rx.take_handle(), vec![]));
+                drop(rx);
+                let back = tx.write_one(Blob::new(0x10, 3)).await;
+                *r2.borrow_mut() = Some(back.map(|b| b.0.clone()));
+            });
+            let how = driver::run(&Opts::default(), &mut vec![]);
+            obs(format!("{:?}", rep.borrow()));
+            if how == "done" {
+                let taken = with(|h| h.streams[si].taken.clone());
+                match &*rep.borrow() {
+                    Some(None) => check("C19", "write_one:reported-sent-but-not-taken", taken == vec![vec![0x10, 0x11, 0x12]], || format!("write_one reported the value as sent but the host took {taken:?}")),
+                    Some(Some(v)) => check("C19", "write_one:handed-back-but-taken", taken.is_empty() && *v == vec![0x10, 0x11, 0x12], || format!("write_one handed back {v:?} while the host took {taken:?}")),
+                    None => {}
+                }
+                blob_ledger_check("C19");
+            }
+            how
+        }),
     ];
     // scenarios that need a runtime feature this build does not have
     if !cfg!(feature = "spawn") {
